@@ -104,7 +104,7 @@ func StartBinary(bin string, o BinOpts) (*Instance, error) {
 	RegisterString(url)
 	in := &Instance{Opts: o, Bin: bin, cmd: cmd, Out: outFile, Vars: vars}
 	in.Env = &Env{Mode: "real", Secret: secret, Addr: "127.0.0.1:" + strconv.Itoa(ps[0]), RelayWs: url,
-		Cfg: Config{AE: o.AllowNoBid == "true", Host: audience, Target: url, Audience: url, TTL: 30}}
+		Cfg: Config{AE: o.AllowNoBid == "true", Host: audience, Target: url, Audience: url, TTL: 30, Secret: secret}}
 	deadline := time.Now().Add(8 * time.Second)
 	for _, p := range ps {
 		up := false
